@@ -320,6 +320,8 @@ func (g *c19Gen) setupBlock(b int) ([][]byte, []string) {
 		cm := clmodel.NewMsgCreateConcentratedPool(g.acc(2).Addr, "bar", "uosmo", 100, osmomath.MustNewDecFromStr("0.002"))
 		add(g.acc(2), "create CL bar/uosmo", &cm)
 		add(g.acc(3), "tokenfactory create", &tftypes.MsgCreateDenom{Sender: g.acc(3).Addr.String(), Subdenom: "tok"})
+		// a second denom whose administrator is renounced two blocks later: nobody may ever administer it again, on any node
+		add(g.acc(3), "tokenfactory create gone", &tftypes.MsgCreateDenom{Sender: g.acc(3).Addr.String(), Subdenom: "gone"})
 		bm2 := balancer.NewMsgCreateBalancerPool(g.acc(4).Addr, balancer.NewPoolParams(osmomath.MustNewDecFromStr("0.01"), osmomath.ZeroDec(), nil),
 			[]balancer.PoolAsset{{Weight: sdkmath.NewInt(3), Token: c("uosmo", 200000000000)}, {Weight: sdkmath.NewInt(1), Token: c("baz", 300000000000)}, {Weight: sdkmath.NewInt(1), Token: c("bar", 100000000000)}}, "")
 		add(g.acc(4), "create balancer uosmo/baz/bar", &bm2)
@@ -332,12 +334,17 @@ func (g *c19Gen) setupBlock(b int) ([][]byte, []string) {
 		g.tfDenom = "factory/" + g.acc(3).Addr.String() + "/tok"
 		add(g.acc(2), "CL full range", &cltypes.MsgCreatePosition{PoolId: 3, Sender: g.acc(2).Addr.String(), LowerTick: cltypes.MinInitializedTick, UpperTick: cltypes.MaxTick, TokensProvided: sdk.NewCoins(c("bar", 400000000000), c("uosmo", 200000000000)), TokenMinAmount0: sdkmath.ZeroInt(), TokenMinAmount1: sdkmath.ZeroInt()})
 		add(g.acc(3), "tf mint", &tftypes.MsgMint{Sender: g.acc(3).Addr.String(), Amount: c(g.tfDenom, 1000000000), MintToAddress: g.acc(3).Addr.String()})
+		gone := "factory/" + g.acc(3).Addr.String() + "/gone"
+		add(g.acc(3), "tf mint gone", &tftypes.MsgMint{Sender: g.acc(3).Addr.String(), Amount: c(gone, 777000000), MintToAddress: g.acc(3).Addr.String()})
+		add(g.acc(3), "tf metadata gone", &tftypes.MsgSetDenomMetadata{Sender: g.acc(3).Addr.String(), Metadata: banktypes.Metadata{Description: "renounced later", Base: gone, Display: "gone", Name: "Gone", Symbol: "GONE",
+			DenomUnits: []*banktypes.DenomUnit{{Denom: gone, Exponent: 0}, {Denom: "gone", Exponent: 6}}}})
 		add(g.acc(7), "set taker fees", &poolmanagertypes.MsgSetDenomPairTakerFee{Sender: g.acc(7).Addr.String(), DenomPairTakerFee: []poolmanagertypes.DenomPairTakerFee{
 			{TokenInDenom: "foo", TokenOutDenom: "uosmo", TakerFee: osmomath.MustNewDecFromStr("0.01")}, {TokenInDenom: "bar", TokenOutDenom: "foo", TakerFee: osmomath.MustNewDecFromStr("0.002")}, {TokenInDenom: "uosmo", TokenOutDenom: "bar", TakerFee: osmomath.MustNewDecFromStr("0.005")}}})
 		for i := 0; i < 4; i++ {
 			add(g.acc(i+4), "join pool 1", &gammtypes.MsgJoinPool{Sender: g.acc(i + 4).Addr.String(), PoolId: 1, ShareOutAmount: gammtypes.OneShare.MulRaw(int64(3 + i)), TokenInMaxs: sdk.NewCoins(c("uosmo", 900000000000), c("foo", 900000000000))})
 		}
 	case 2:
+		add(g.acc(3), "tf renounce gone", &tftypes.MsgChangeAdmin{Sender: g.acc(3).Addr.String(), Denom: "factory/" + g.acc(3).Addr.String() + "/gone", NewAdmin: ""})
 		for i := 0; i < 4; i++ {
 			du := []time.Duration{time.Hour, 3 * time.Hour, 7 * time.Hour}[i%3]
 			add(g.acc(i+4), "lock shares", &lockuptypes.MsgLockTokens{Owner: g.acc(i + 4).Addr.String(), Duration: du + time.Duration(i)*time.Minute, Coins: sdk.NewCoins(sdk.NewCoin("gamm/pool/1", gammtypes.OneShare.MulRaw(int64(1+i))))})
@@ -681,6 +688,18 @@ func (g *c19Gen) randomBlock() ([][]byte, []string) {
 			msg, d = &incentivestypes.MsgAddToGauge{Owner: a.Addr.String(), GaugeId: uint64(1 + r.Intn(8)), Rewards: sdk.NewCoins(c("uosmo", 1000+r.I64n(90000000)))}, "add to gauge"
 		case 11:
 			if g.tfDenom == "" {
+				continue
+			}
+			if r.Intn(4) == 0 && (ai == 3 || !used[3]) {
+				// the former administrator of the renounced denom tries again: refused on every node, imported or not
+				used[3] = true
+				gone := "factory/" + g.acc(3).Addr.String() + "/gone"
+				var m sdk.Msg = &tftypes.MsgMint{Sender: g.acc(3).Addr.String(), Amount: c(gone, 1+r.I64n(1000)), MintToAddress: g.acc(3).Addr.String()}
+				if r.Bool() {
+					m = &tftypes.MsgChangeAdmin{Sender: g.acc(3).Addr.String(), Denom: gone, NewAdmin: g.acc(3).Addr.String()}
+				}
+				txs = append(txs, g.sign(g.acc(3), m))
+				ds = append(ds, "tf renounced denom")
 				continue
 			}
 			am, err := ch.App.TokenFactoryKeeper.GetAuthorityMetadata(ch.Ctx, g.tfDenom)
